@@ -47,7 +47,12 @@ claim("C09",
       "trusted: TLC; graphs built from edges; tie-breaks via random.choice of the global instance; a 60-120 s watchdog stands for non-termination",
       T_TLC, "DESIGN.md 4 C09")
 
+claim("C10",
+      "TLC model-checks the accept/claim loop of MPCC for EVERY graph on <= 5 vertices, limits 0/2/3/4 and every order that is non-increasing in size (the shuffle + stable sort): labels are whole disjoint cliques within the limit, every edge covered, greedy-maximality; dropping reverse=True is a deviation that must fail. The real MPCC is driven along chosen clique orders (Fisher-Yates plan computed for the clique list, directed oracle) on the same graphs plus G(n,p) and generator outputs, and TLC judges the parsed labels, the untouched graph and greedy-maximality on every recorded run",
+      "trusted: TLC, the label parser of the encoder (size-members-id), non-negative int vertex ids",
+      T_TLC, "DESIGN.md 4 C10")
+
 _pending = "no check built yet in this round; planned (DESIGN.md 4)"
-for p in ["C10","C11","C12","C13","C14","C15","C16","C17","C18"]:
+for p in ["C11","C12","C13","C14","C15","C16","C17","C18"]:
     NOT_APPLICABLE[p] = _pending
 NOT_APPLICABLE["C19"] = "numerical accuracy of four stateless real-valued functions (exp, zeta, polylog): no state, no transitions, TLC has neither reals nor transcendental functions (DESIGN.md 5)"
